@@ -87,6 +87,17 @@ CHECKS: dict[str, dict] = {
         "logs are validated against the lifecycle automaton.",
         design_ref="DESIGN.md 3 C10",
     ),
+    "C17": dict(
+        technique="TLA+ transcription of the canvas trim computation (UrwidCanvas.tla) checked exhaustively and "
+        "replayed into the real _ti_calc_trim; every row of real canvas.content() calls judged by TLC on "
+        "Terminal.tla against the crop of the untrimmed canvas (Trace_Canvas.tla)",
+        text="TLC proves within bounds that the trim computation equals cutting the padded layout and that the "
+        "content procedure equals cropping; all enumerated tuples are replayed into the real code; the rows "
+        "returned for every sub-rectangle of real image-widget canvases (box/flow, alignments, alpha, "
+        "block/kitty/iterm2, several terminal identities) are interpreted by the terminal model and must "
+        "equal the crop, never bleed colours and have exactly the requested size.",
+        design_ref="DESIGN.md 3 C17, notes/C17.md",
+    ),
     "C20": dict(
         technique="TLA+ inheritance model of style settings (StyleSettings.tla) explored by TLC; every edge replayed "
         "on dynamically created subclasses of the real style classes; recorded set/unset histories "
